@@ -666,10 +666,11 @@ def admission_jobs(r, n: int, prefix: str) -> List[tuple]:
                         # (a wrong version AND a team name of its own: nothing of this
                         # request may be remembered)
                         team = r.choice(['Visitors', 'other', rand_id(r).strip() or 'v'])
-                line = f'Connecting "{team}" as {["North", "East", "South", "West"][s]} ' \
+                # (the variant in other letter case is built from its parts: the team
+                # name itself may contain the words of the line)
+                kw1, kw2 = ('connecting', 'AS') if r.random() < 0.3 else ('Connecting', 'as')
+                line = f'{kw1} "{team}" {kw2} {["North", "East", "South", "West"][s]} ' \
                        f'using protocol version {ver}'
-                if r.random() < 0.3:
-                    line = line.replace('Connecting', 'connecting').replace(' as ', ' AS ')
                 seq.append({'kind': 'raw', 'seat': s, 'team': team, 'version': ver, 'line': line,
                             'hangup': r.random() < 0.3})
             seq.append(g)
